@@ -29,6 +29,7 @@ RULE = (
 ASSUMPTIONS = [
     "identical means numpy.array_equal (the computation is deterministic)",
     "'repeating a call' covers any two identical calls within one simulation, also with other recovery calls in between (the interpolator follows the most recent recovery mode and is compared only while no recovery call intervenes)",
+    "the interpolator is also evaluated at the simulated times and must reproduce there the array returned by the latest recovery call of the current simulation (rtol 1e-12)",
     "schedule-carrying simulate calls are not in the alphabet (the property's alphabet has none)",
     "calls made before any simulate must raise (any exception) and leave the object usable",
 ]
@@ -142,6 +143,29 @@ def epoch_repeat_check(history, results, res):
         seen.setdefault(k, value)
 
 
+def interpolator_follows_latest_recovery(history, results, res):
+    """Within one simulation the interpolator describes the recovery most recently asked for: at the simulated
+    times it reproduces the array that the latest recovery call of this simulation returned."""
+    op, (status, value) = history[-1], results[-1]
+    if op[0] != "interp" or status != "ok":
+        return
+    latest = None
+    for o, (st_, v) in zip(history[:-1][::-1], results[:-1][::-1]):
+        if o[0] == "sim":
+            break
+        if o[0] in ("rf", "rfd") and st_ == "ok":
+            latest = (o[0], v)
+            break
+    if latest is None:
+        return
+    name, rec = latest
+    at_nodes = value[len(op[1]):]
+    if at_nodes.shape != rec.shape or not np.allclose(at_nodes, rec, rtol=1e-12, atol=1e-300, equal_nan=True):
+        k = int(np.argmax(np.abs(at_nodes - rec))) if at_nodes.shape == rec.shape else 0
+        d = f"element {k}: interpolator {at_nodes[k]!r}, recovery {rec[k]!r}" if at_nodes.shape == rec.shape else f"shapes {at_nodes.shape} vs {rec.shape}"
+        res.bad("C10/interpolator-follows-latest-recovery", f"the interpolator does not reproduce the recovery returned by the latest recovery call ({'density' if name == 'rfd' else 'flux'} mode) at the simulated times: {d} (history {history})")
+
+
 def apply_op(obj, op, cfg):
     """Execute one operation; -> ('ok', value) or ('raised', repr)."""
     try:
@@ -154,7 +178,8 @@ def apply_op(obj, op, cfg):
             return "ok", np.array(obj.recovery_factor(density=True), float, copy=True)
         if op[0] == "interp":
             f = obj.recovery_factor_interpolator()
-            return "ok", np.array(f(np.array(op[1], float)), float, copy=True)
+            # the generated query times, followed by the simulated times themselves
+            return "ok", np.concatenate([np.array(f(np.array(op[1], float)), float, copy=True).ravel(), np.array(f(np.asarray(obj.time, float)), float, copy=True).ravel()])
     except Exception as e:  # noqa: BLE001
         return "raised", f"{type(e).__name__}: {e}"
     raise ValueError(op)
@@ -223,6 +248,7 @@ def run_history(cfg, history) -> Result:
         results.append((status, value))
         compare_with_fresh(cfg, history[: i + 1], obj, status, value, res)
         epoch_repeat_check(history[: i + 1], results, res)
+        interpolator_follows_latest_recovery(history[: i + 1], results, res)
         if i > 0 and history[i - 1] == op and op[0] != "sim" and prev is not None and prev[0] == "ok" and status == "ok":
             if not same(prev[1], value):
                 res.bad("C10/repeat-gives-same-result", f"repeating {op[0]} changed its result (history {history[: i + 1]})")
@@ -275,6 +301,7 @@ def run_worker(ctx: core.WorkerContext):
             self.results.append((status, value))
             self.pending = (status, value)
             epoch_repeat_check(self.history, self.results, self.res)
+            interpolator_follows_latest_recovery(self.history, self.results, self.res)
             if len(self.history) > 1 and self.history[-2] == op and op[0] != "sim" and self.prev and self.prev[0] == "ok" and status == "ok":
                 if not same(self.prev[1], value):
                     self.res.bad("C10/repeat-gives-same-result", f"repeating {op[0]} changed its result (history {self.history})")
